@@ -1770,7 +1770,11 @@ def g_state(repo, rep, rule, modules, site):
 STATE_EXTRA = {
     # the expression compilers hold the tokens that error frames quote
     "C12": {"chameleon.tales", "chameleon.zpt.program"},
-    "C11": {"chameleon.tales"},
+    # (... code blocks and expressions pass the name rewriter; the element
+    # program hands the options to the parser)
+    "C11": {"chameleon.tales", "chameleon.astutil", "chameleon.program"},
+    # the load: expression type lives with the other expression types
+    "C16": {"chameleon.tales"},
     # the repeat dictionary is created per render by the template class
     "C08": {"chameleon.zpt.template"},
     "C01": {"chameleon.zpt.template", "chameleon.utils"},
@@ -1819,6 +1823,7 @@ def state_rule(repo, rep, rule=None):
     argswap_rule(repo, rep, mods=mods)
     noneflow_rule(repo, rep, mods=mods)
     shape_rule(repo, rep, mods=mods)
+    kind_rule(repo, rep, mods=mods)
     return r
 
 
@@ -2098,6 +2103,187 @@ def shape_rule(repo, rep, rule=None, mods=None):
                "tests over real sequences, %d pair-keyed accesses, %d "
                "guarded value tests" % (fn, inn, kn, tn))
     return fn + inn + kn + tn
+
+
+# ---------------------------------------------------------------------------
+# G-KIND: four contradictions between what a value is called / declared and
+# what it is given (each compiles, each fails or misbehaves only when reached)
+#  - a function whose declared result does not admit None has no
+#    'return None' / bare 'return'
+#  - a conditional expression has two different branches
+#  - a local named like an attribute of the object it is read from is bound
+#    from THAT attribute (args = node.body, translate = self.encoding)
+#  - a parameter named like an attribute of the caller's own object is given
+#    that attribute when it is given one of them at all
+#    (parse_tag(..., restricted_namespace <- self.index))
+
+
+def _node_fields(repo, f):
+    """field names of the node a visit_<Kind> method is about"""
+    name = f.node.name
+    out = set()
+    kinds = []
+    if name.startswith("visit_"):
+        kinds = [name[len("visit_"):]]
+    elif "comprehension" in name:
+        kinds = ["ListComp", "SetComp", "GeneratorExp", "DictComp"]
+    for k in kinds:
+        cls = getattr(ast, k, None)
+        if cls is not None and hasattr(cls, "_fields"):
+            out |= set(cls._fields)
+        try:
+            ci = repo.cls("chameleon.nodes." + k)
+        except Exception:
+            ci = None
+        if ci is not None:
+            for b in repo.mro(ci):
+                if "_fields" in b.attrs:
+                    try:
+                        out |= set(repo.fold(b.attrs["_fields"],
+                                             repo.module("chameleon.nodes")))
+                    except Exception:
+                        pass
+                    break
+    return out
+
+
+# The first and the last of the four are armed per instance: a general form
+# of either ("no function declared -> T returns None", "no parameter named
+# like an attribute gets another attribute") also reports edits the triage
+# of the fifth sweep found equivalent -- results nobody looks at beyond their
+# truth, parameters of calls in unreachable branches.  Listed are the
+# instances where the demonstration exists (seeded/<prop>-x<id>-...).
+RESULTS_ARMED = {
+    # the rewritten node replaces the original in its parent
+    "chameleon.astutil.NameLookupRewriteVisitor.visit_Lambda",
+    "chameleon.astutil.NameLookupRewriteVisitor._visit_comprehension",
+    "chameleon.astutil.NameLookupRewriteVisitor.visit_alias",
+    "chameleon.astutil.NameLookupRewriteVisitor.visit_arg",
+    # the replacement text of an entity
+    "chameleon.utils.substitute_entity",
+    # repeat.x.number() is repeat.x.number
+    "chameleon.utils.callableint.__call__",
+    # a cut argument in an error report
+    "chameleon.utils.limit_string",
+    # a component of the cache key
+    "chameleon.zpt.template._stable_name",
+}
+PARAMS_ARMED = {
+    ("chameleon.parser.ElementParser.visit_start_tag",
+     "restricted_namespace"),
+    ("chameleon.parser.ElementParser.visit_empty_tag",
+     "restricted_namespace"),
+    ("chameleon.program.ElementProgram.__init__", "restricted_namespace"),
+    ("chameleon.tales.ProxyExpr.translate_proxy", "braces_required"),
+}
+
+
+def kind_sites(repo, mods=None):
+    n, bad = 0, []
+    cls_attrs = {}
+    for q, f in repo.funcs.items():
+        if f.cls is None:
+            continue
+        key = id(f.cls)
+        for x in ast.walk(f.node):
+            if isinstance(x, ast.Attribute) and isinstance(
+                    x.value, ast.Name) and x.value.id == "self":
+                cls_attrs.setdefault(key, set()).add(x.attr)
+    for q, f in sorted(repo.funcs.items()):
+        if mods is not None and f.module.name not in mods:
+            continue
+        r = f.node.returns
+        rt = src(r) if r is not None else None
+        nested = {id(y) for x in ast.walk(f.node)
+                  if isinstance(x, (ast.FunctionDef, ast.Lambda,
+                                    ast.AsyncFunctionDef))
+                  and x is not f.node for y in ast.walk(x)}
+        if rt is not None and q in RESULTS_ARMED and not any(
+                w in rt for w in ("None", "Optional", "Any", "NoReturn",
+                                  "Iterator", "Generator", "Iterable")):
+            n += 1
+            for x in ast.walk(f.node):
+                if id(x) in nested:
+                    continue
+                if isinstance(x, ast.Return) and (
+                        x.value is None or (isinstance(x.value, ast.Constant)
+                                            and x.value.value is None)):
+                    bad.append((f, x, "returns-declared",
+                                "declared -> %s, returns None" % rt))
+        known_self = set(cls_attrs.get(id(f.cls), set())) \
+            if f.cls is not None else set()
+        if f.cls is not None:
+            try:
+                for b in repo.mro(f.cls):
+                    known_self |= set(b.attrs) | set(b.methods)
+            except Exception:
+                pass
+        nf = _node_fields(repo, f)
+        local_attrs = {}
+        for x in ast.walk(f.node):
+            if isinstance(x, ast.Attribute) and isinstance(x.value, ast.Name):
+                local_attrs.setdefault(x.value.id, set()).add(x.attr)
+        for x in ast.walk(f.node):
+            if isinstance(x, ast.IfExp):
+                n += 1
+                if src(x.body) == src(x.orelse):
+                    bad.append((f, x, "conditional-two-branches",
+                                "both branches are %s" % src(x.body)[:40]))
+            if isinstance(x, ast.Assign) and len(x.targets) == 1 and \
+                    isinstance(x.targets[0], ast.Name) and \
+                    isinstance(x.value, ast.Attribute) and \
+                    isinstance(x.value.value, ast.Name):
+                X, Y, base = x.targets[0].id, x.value.attr, x.value.value.id
+                known = set(local_attrs.get(base, ()))
+                if base == "self":
+                    known |= known_self
+                if base == "node":
+                    known |= nf
+                if X == Y:
+                    n += 1
+                elif X in known:
+                    bad.append((f, x, "local-named-like-attribute:%s" % X,
+                                "%s is bound from %s.%s while %s.%s exists"
+                                % (X, base, Y, base, X)))
+            if isinstance(x, ast.Call) and known_self and not any(
+                    isinstance(a, ast.Starred) for a in x.args):
+                rr = _callee_params(repo, f, x)
+                if rr is None:
+                    continue
+                params, cq, has_var = rr
+                given = [(params[i], a) for i, a in enumerate(x.args)
+                         if i < len(params)] + [
+                             (k.arg, k.value) for k in x.keywords if k.arg]
+                for pn, a in given:
+                    if isinstance(a, ast.Attribute) and isinstance(
+                            a.value, ast.Name) and a.value.id == "self" and \
+                            pn in known_self and (q, pn) in PARAMS_ARMED:
+                        n += 1
+                        if a.attr != pn:
+                            bad.append((f, x, "parameter-named-like-"
+                                        "attribute:%s" % pn, "parameter %s "
+                                        "of %s gets self.%s while self.%s "
+                                        "exists" % (pn, cq.split(".")[-1],
+                                                    a.attr, pn)))
+    return n, bad
+
+
+def kind_rule(repo, rep, rule=None, mods=None):
+    rule = rule or "R%s.K" % rep.prop[1:]
+    n, bad = kind_sites(repo, mods)
+    if n == 0:
+        return 0
+    rep.rule(rule, "G-KIND: declared results are returned, conditionals "
+                   "have two branches, locals and parameters named like an "
+                   "attribute get that attribute")
+    for f, x, construct, text in bad:
+        rep.bad(rule, f.qualname, "what a value is called or declared "
+                "agrees with what it is given", construct,
+                where=where(f, x.lineno), detail=text)
+    if not bad:
+        rep.ok(rule, "%s modules" % rep.prop, "G-KIND: %d declared results, "
+               "conditionals, name-matched bindings and arguments agree" % n)
+    return n
 
 
 # ---------------------------------------------------------------------------
